@@ -19,7 +19,7 @@ from symx.core import le, lt, ge, gt, eq, ne, and_, or_, implies, not_, iff, ite
 from symx.run import Job
 
 FUNCS = [
-    "acnportal.acnsim.events.acndata_events._convert_to_ev/_datetime_to_timestamp",
+    "acnportal.acnsim.events.acndata_events.get_evs/generate_events/_convert_to_ev/_datetime_to_timestamp",
     "acnportal.acnsim.events.stochastic_events.StochasticEvents._convert_ev_matrix",
     "acnportal.acnsim.models.battery.batt_cap_fn/_get_init_cap (closed-form branch)", "acnportal.acnsim.models.battery.Linear2StageBattery.__init__/_charge",
     "acnportal.acnsim.models.battery.Battery.__init__", "acnportal.acnsim.models.ev.EV.__init__",
@@ -52,6 +52,19 @@ def mk_dt(cx, name, tz_hours, lo=0, hi=2 * 10 ** 9):
     return _dt.datetime.fromtimestamp(secs, _dt.timezone(_dt.timedelta(hours=tz_hours))), secs
 
 
+class _MathProxy:
+    """math as seen by acndata_events: ceil / floor on symbolic reals"""
+
+    def __getattr__(self, k):
+        return getattr(math, k)
+
+    def ceil(self, x):
+        return core.sym_ceil(x)
+
+    def floor(self, x):
+        return core.sym_floor(x)
+
+
 def _battery_state(b):
     d = b._to_dict()[0]
     return d["_capacity"], d["_init_charge"], d["_current_charge"], d["_max_power"]
@@ -64,6 +77,7 @@ def h_doc(cx, period, use_max_len, force_feasible, battery_mode, tz_hours):
     env.install(cx)
     cx.patch(AE, "int", core.sym_int, must_exist=False)
     cx.patch(AE, "min", core.sym_min, must_exist=False)
+    cx.patch(AE, "math", _MathProxy())
     start, s_secs = mk_dt(cx, "start_secs", 0)
     conn, c_secs = mk_dt(cx, "connect_secs", tz_hours)
     disc, d_secs = mk_dt(cx, "disconnect_secs", tz_hours)
@@ -91,8 +105,29 @@ def h_doc(cx, period, use_max_len, force_feasible, battery_mode, tz_hours):
         cx.tag("doc:capacity_fn")
     elif battery_mode == "two_stage_default":
         params = {"type": B.Linear2StageBattery}
-    offset = AE._datetime_to_timestamp(start, period)
-    ev = AE._convert_to_ev(doc, offset, period, voltage, maxp, max_len, params, force_feasible)
+    # through the public entry point: get_evs() asks the data client for the documents of [start, end] and converts them
+    asked = []
+
+    class FakeClient:
+        def __init__(self, token):
+            asked.append(("token", token))
+
+        def get_sessions_by_time(self, site, start_, end_, *a, **k):
+            asked.append((site, start_, end_))
+            return iter([doc])
+
+    cx.patch(AE, "DataClient", FakeClient, sym_only=False)
+    end = start
+    evs = AE.get_evs("TOKEN", "caltech", start, end, period, voltage, maxp, max_len, params, force_feasible)
+    cx.check("one_ev_per_document", len(evs) == 1)
+    cx.check("documents_requested_for_the_given_site_and_window", asked == [("token", "TOKEN"), ("caltech", start, end)])
+    ev = evs[0]
+    offset = ev.arrival - ev.arrival  # placeholder so that the obligations below are stated on the EV only
+    calls_first = list(calls)
+    events = AE.generate_events("TOKEN", "caltech", start, end, period, voltage, maxp, max_len=max_len, battery_params=params, force_feasible=force_feasible)
+    cx.check("generate_events:one_plugin_event_at_the_arrival", len(events) == 1 and events._queue[0][1].event_type == "Plugin")
+    if len(events) == 1:
+        cx.check("generate_events:timestamp=arrival", and_(eq(events._queue[0][0], ev.arrival), eq(events._queue[0][1].ev.arrival, ev.arrival)))
     # ---- oracle
     q = 60 * period
     fl = (lambda x: env._divmod_const(x, q)[0]) if cx.mode == "sym" else (lambda x: x // q)  # floor of the quotient, by definition x = q*k + r
@@ -106,7 +141,6 @@ def h_doc(cx, period, use_max_len, force_feasible, battery_mode, tz_hours):
     # "what the maximum battery power can deliver during the stay": the stay of the EV itself (equal to `stay` by the two
     # obligations above it)
     energy = sym_min(kwh, maxp * (ev.departure - ev.arrival) * (period / 60)) if force_feasible else kwh
-    cx.check("offset=floor(start/period)", eq(offset, fs))
     cx.check("arrival=floor(connect/period)-floor(start/period)", eq(ev.arrival, A))
     cx.check("departure=floor(disconnect/period)-floor(start/period),capped_at_max_len", eq(ev.departure, dep))
     cx.check("departure>=arrival", ge(ev.departure, ev.arrival))
@@ -122,9 +156,9 @@ def h_doc(cx, period, use_max_len, force_feasible, battery_mode, tz_hours):
     cx.check("battery_max_power", eq(mp, maxp))
     cx.check("battery_starts_at_init", eq(cur, init))
     if battery_mode == "capacity_fn":
-        cx.check("capacity_fn_called_once", len(calls) == 1)
-        if len(calls) == 1 and len(calls[0]) == 4:
-            a = calls[0]
+        cx.check("capacity_fn_called_once", len(calls_first) == 1)
+        if len(calls_first) == 1 and len(calls_first[0]) == 4:
+            a = calls_first[0]
             cx.check("capacity_fn_arguments", and_(eq(a[0], energy), eq(a[1], ev.departure - ev.arrival), eq(a[2], voltage), eq(a[3], period)))
         cx.check("battery_from_capacity_fn", and_(eq(cap, cap_s), eq(init, init_s)))
         cx.check("battery_type_and_kwargs", type(ev._battery) is B.Linear2StageBattery and ev._battery._transition_soc == 0.7 and ev._battery.charge_calculation == "stepwise")
